@@ -84,3 +84,8 @@ package keeper
 //@ func (Keeper).GetRedemptionRate
 //@ ensures C07/rate-is-value-per-share: supply(ctx, types.GetShareDenom()) != 0 ==> result == decQuo(dec(k.GetParams(ctx).TotalValue), dec(supply(ctx, types.GetShareDenom())))
 //@ ensures C07/rate-of-empty-vault: supply(ctx, types.GetShareDenom()) == 0 ==> result == 0
+
+// ---- C18: block processing never panics ------------------------------------------------------------------
+//@ func (Keeper).BeginBlocker
+//@ nopanic
+//@ ensures C18/begin-block-completes: true
